@@ -70,24 +70,27 @@ def explore(role: str, max_sends: int) -> t.Dict[str, t.Any]:
 
     for label, init, prehist in initial_states(role):
         g0 = (b"", 0, 0)  # (ghost stream, drained so far, sends made)
-        seen = {(A.freeze(init), g0)}
-        frontier = [(init, g0, [list(e) for e in prehist])]
+        # the twin receives the same sends but is drained completely after each: "however they are drained" means the
+        # session under test stays indistinguishable from it in everything but the bytes still pending
+        seen = {(A.freeze(init), A.freeze(init), g0)}
+        frontier = [(init, copy.deepcopy(init), g0, [list(e) for e in prehist])]
         stats["states"] += 1
         while frontier:
             nxt = []
-            for s, (stream, drained, nsend), hist in frontier:
+            for s, twin, (stream, drained, nsend), hist in frontier:
                 pending = len(stream) - drained
                 evs: t.List[t.Any] = [("drain", a, -1) for a in AMOUNTS]
                 if nsend < max_sends:
                     evs += send_events(role)
                 for ev in evs:
                     s2 = copy.deepcopy(s)
+                    twin2 = twin
                     h2 = hist + [list(ev)]
                     stats["transitions"] += 1
                     bad = False
                     if ev[0] == "drain":
                         amt = _amount(ev[1], pending)
-                        before = A.protocol_view(s2)
+                        before = A.public_view(s2)
                         try:
                             got = s2.data_to_send(amt)
                         except BaseException as e:  # noqa: BLE001
@@ -102,14 +105,13 @@ def explore(role: str, max_sends: int) -> t.Dict[str, t.Any]:
                             kind = "short" if len(got) < len(exp) else "long" if len(got) > len(exp) else "different"
                             flag(f"drain-wrong-bytes:{ev[1]}:{kind}", f"data_to_send({amt}) with {pending} pending returned {got.hex()[:40]} ({len(got)} bytes), expected {exp.hex()[:40]} ({len(exp)} bytes)", h2)
                             bad = True
-                        if A.protocol_view(s2) != before:
+                        if A.public_view(s2) != before:
                             flag(f"drain-changed-protocol-state:{ev[1]}", f"data_to_send({amt}) changed the session's protocol state", h2)
                             bad = True
                         g2 = (stream, drained + len(exp), nsend)
                     else:
-                        # expected encoding of this call: what a clone with an emptied buffer emits
-                        probe = copy.deepcopy(s)
-                        probe.data_to_send()
+                        # expected encoding of this call: what the always-drained twin emits
+                        probe = twin2 = copy.deepcopy(twin)
                         pexc = None
                         try:
                             sess.apply_event(role, probe, ev)
@@ -150,13 +152,16 @@ def explore(role: str, max_sends: int) -> t.Dict[str, t.Any]:
                         why = "refused" if ev[0] in ("call", "callbad") and exc is not None else "accepted" if ev[0] in ("call", "callbad") else "drain"
                         flag(f"pending-differs-after:{ev[0]}:{ev[1]}:{why}", f"after {ev} the session holds {rest.hex()[:50]} ({len(rest)} bytes); accepted sends minus drained bytes = {exp_rest.hex()[:50]} ({len(exp_rest)} bytes)", h2)
                         bad = True
+                    if A.public_view(s2) != A.public_view(twin2):
+                        flag(f"drain-pattern-changes-visible-state:{ev[0]}:{ev[1]}", f"after {ev} the session shows {A.public_view(s2)}; the same sends with every byte drained at once: {A.public_view(twin2)}", h2)
+                        bad = True
                     if bad:
                         continue
-                    key = (A.freeze(s2), g2)
+                    key = (A.freeze(s2), A.freeze(twin2), g2)
                     if key not in seen:
                         seen.add(key)
                         stats["states"] += 1
-                        nxt.append((s2, g2, h2))
+                        nxt.append((s2, twin2, g2, h2))
                         if len(stats["samples"]) < 4 and len(h2) >= 4:
                             stats["samples"].append({"role": role, "init": label, "history": h2})
             frontier = nxt
@@ -169,6 +174,7 @@ def replay_case(case: t.Dict[str, t.Any]) -> t.Tuple[bool, str]:
         steps, viol = long_drain_runs(role)
         return (not viol), "\n".join(f"  {k}: {e['what']}" for k, e in viol.items()) or "large-message and held-partial scenarios pass"
     s = sess.new_session(role)
+    twin = sess.new_session(role)
     stream, drained = b"", 0
     lines = []
     ok = True
@@ -182,20 +188,28 @@ def replay_case(case: t.Dict[str, t.Any]) -> t.Tuple[bool, str]:
             lines.append(f"  data_to_send({amt}) -> {got.hex()[:50]} ; expected {exp.hex()[:50]}")
             ok &= got == exp
         else:
-            probe = copy.deepcopy(s)
-            probe.data_to_send()
+            texc = None
             try:
-                sess.apply_event(role, probe, ev)
-            except BaseException:  # noqa: BLE001
-                pass
-            enc = probe.data_to_send()
+                sess.apply_event(role, twin, ev)
+            except BaseException as e:  # noqa: BLE001
+                texc = e
+            enc = twin.data_to_send()
             try:
                 sess.apply_event(role, s, ev)
                 if ev[0] in ("call", "callbad"):
                     stream += enc
                 lines.append(f"  {ev} accepted")
+                if texc is not None:
+                    ok = False
+                    lines.append(f"     !! refused ({type(texc).__name__}) by the always-drained twin")
             except BaseException as e:  # noqa: BLE001
                 lines.append(f"  {ev} refused: {type(e).__name__}")
+                if texc is None:
+                    ok = False
+                    lines.append("     !! accepted by the always-drained twin")
+        if A.public_view(s) != A.public_view(twin):
+            ok = False
+            lines.append(f"     !! visible state {A.public_view(s)} != always-drained twin {A.public_view(twin)}")
         rest = copy.deepcopy(s).data_to_send()
         if rest != stream[drained:]:
             ok = False
